@@ -865,6 +865,15 @@ func (u *c13UnitCtx) do(pkt []byte) c13Obs {
 	return o
 }
 
+// doOn is do on a given parser (the pair family uses one parser per packet pair).
+func (u *c13UnitCtx) doOn(ps *c13Parser, pkt []byte) c13Obs {
+	u.cur.Store(&pkt)
+	u.ticks.Add(1)
+	o := ps.parse(pkt)
+	u.parses++
+	return o
+}
+
 type c13Pool struct {
 	rep        *mc.Report
 	mu         sync.Mutex
@@ -1018,6 +1027,103 @@ func c13CheckBatch(u *c13UnitCtx, b []c13Metric, fresh bool) {
 				u.rep.Violate("C13:mismatch:"+e.Enc+":"+strings.Join(fl, "+"), fmt.Sprintf("%s encoding decodes differently in field(s) %v: batch %+v, decoded %+v", e.Enc, fl, b, o.Metrics), detail)
 			}
 		}
+	}
+}
+
+// ---------------------------------------------------------------------------------------------------------------
+// Part A2: packet pairs through one reused batch object
+
+// c13PairBatches is the alphabet of the pair family. The receive loops (UDP.Serve, TCP.receiveLoop) parse every packet
+// into the same AddMetricsBatchBytes, whose Reset only truncates slices: whatever the previous packet left in the
+// backing arrays is re-exposed by every reslice, so a decoder that omits to clear an element it does not fully
+// overwrite leaks the previous packet into the next one. The alphabet therefore has zero-valued components (counter,
+// ts, value, unique, histogram value and count, empty tag value, empty name: a proto3 encoder omits every one of them),
+// differing element counts at the same index, and non-zero data at the same positions to be leaked.
+func c13PairBatches() [][]c13Metric {
+	plain := c13Metric{Name: "a"}
+	zeros := c13Metric{Name: "", Tags: [][2]string{{"k", ""}}, HasCounter: true, HasTs: true, HasValue: true, Value: []float64{0},
+		HasUnique: true, Unique: []int64{0}, HasHist: true, Hist: [][2]float64{{0, 0}}}
+	rich := c13Metric{Name: "rich", Tags: [][2]string{{"k", "v"}, {"key2", "w"}}, HasCounter: true, Counter: 2.5, HasTs: true, Ts: 1700000000,
+		HasValue: true, Value: []float64{1.5, -2, 9}, HasUnique: true, Unique: []int64{-3, 1 << 40, 5}, HasHist: true, Hist: [][2]float64{{1, 2}, {0.5, 3}, {8, 9}}}
+	zeroValue := c13Metric{Name: "b", Tags: [][2]string{{"k", "v"}}, HasValue: true, Value: []float64{0, 1.5}, HasUnique: true, Unique: []int64{7, 0},
+		HasHist: true, Hist: [][2]float64{{0, 3}}}
+	zeroCount := c13Metric{Name: "c", Tags: [][2]string{{"", "v"}}, HasCounter: true, Counter: 0, HasHist: true, Hist: [][2]float64{{4, 0}, {0, 5}}}
+	mixed := c13Metric{Name: "d", HasTs: true, Ts: 0, HasValue: true, Value: []float64{}, HasHist: true, Hist: [][2]float64{{6, 7}, {0, 0}, {0, 1}}}
+	one := c13Metric{Name: "e", Tags: [][2]string{{"key2", ""}}, HasCounter: true, Counter: 1, HasTs: true, Ts: 5, HasValue: true, Value: []float64{3},
+		HasUnique: true, Unique: []int64{9}, HasHist: true, Hist: [][2]float64{{1, 1}}}
+	return [][]c13Metric{
+		{plain}, {zeros}, {rich}, {zeroValue}, {zeroCount}, {mixed}, {one},
+		{rich, rich}, {zeros, zeros}, {rich, zeroCount}, {zeroValue, rich}, {plain, zeros}, {one, mixed, zeroValue},
+	}
+}
+
+// c13JudgeValid compares the observation of a valid packet with its reference batch (same oracle as part A).
+func c13JudgeValid(u *c13UnitCtx, e c13Encoding, b []c13Metric, o *c13Obs, sigTag string, detail map[string]any) {
+	if o.Panic != "" {
+		detail["stack"] = c13Trim(o.PanicStack)
+		u.rep.Violate("C13:panic:"+c13PanicSite(o.PanicStack), fmt.Sprintf("parser.parse panicked on a valid %s packet: %s", e.Enc, o.Panic), detail)
+		return
+	}
+	if o.RetErr != nil || o.ErrCalls != 0 {
+		detail["error"] = fmt.Sprint(o.RetErr)
+		u.rep.Violate("C13:valid-rejected:"+e.Enc+sigTag, fmt.Sprintf("valid %s encoding of %+v rejected: %v", e.Enc, b, o.RetErr), detail)
+		return
+	}
+	if cl := o.class(); cl != e.Class {
+		u.rep.Violate("C13:format-detection", fmt.Sprintf("valid %s packet %x took the %q branch, documented: %s", e.Enc, e.Pkt, cl, e.Class), detail)
+	}
+	if len(o.Metrics) != len(b) {
+		u.rep.Violate("C13:mismatch:"+e.Enc+":count"+sigTag, fmt.Sprintf("%s encoding of %d metrics decoded into %d metrics; batch %+v", e.Enc, len(b), len(o.Metrics), b), detail)
+		return
+	}
+	fields := map[string]bool{}
+	want := make([]c13Canon, len(b))
+	for i := range b {
+		want[i] = b[i].canon()
+		for _, f := range c13DiffFields(want[i], o.Metrics[i]) {
+			fields[f] = true
+		}
+	}
+	if len(fields) != 0 {
+		var fl []string
+		for f := range fields {
+			fl = append(fl, f)
+		}
+		sort.Strings(fl)
+		detail["want"] = want
+		detail["got"] = o.Metrics
+		u.rep.Violate("C13:mismatch:"+e.Enc+":"+strings.Join(fl, "+")+sigTag, fmt.Sprintf("%s encoding decodes differently in field(s) %v: batch %+v, decoded %+v (%v)", e.Enc, fl, b, o.Metrics, detail["context"]), detail)
+	}
+}
+
+type c13PairPacket struct {
+	enc   c13Encoding
+	batch []c13Metric
+}
+
+func c13PairPackets() []c13PairPacket {
+	var out []c13PairPacket
+	for _, b := range c13PairBatches() {
+		for _, e := range c13Encodings(b) {
+			out = append(out, c13PairPacket{e, b})
+		}
+	}
+	return out
+}
+
+// c13CheckPairsFrom: packet `first` then every packet, each pair on a parser of its own whose batch and scratch are
+// reused between the two parses exactly as in the receive loops. Both packets must decode to their own reference.
+func c13CheckPairsFrom(u *c13UnitCtx, pk []c13PairPacket, first int) {
+	for second := range pk {
+		ps := c13NewParser()
+		a, b := pk[first], pk[second]
+		o1 := u.doOn(ps, a.enc.Pkt)
+		c13JudgeValid(u, a.enc, a.batch, &o1, "", map[string]any{"encoder": a.enc.Enc, "packet_hex": hex.EncodeToString(a.enc.Pkt), "batch": a.batch, "context": "first packet on a fresh parser"})
+		o2 := u.doOn(ps, b.enc.Pkt)
+		u.rep.Outcome("pair|" + a.enc.Enc + "|" + b.enc.Enc + "|" + o2.outcomeKey())
+		c13JudgeValid(u, b.enc, b.batch, &o2, ":after:"+a.enc.Enc, map[string]any{"encoder": b.enc.Enc, "packet_hex": hex.EncodeToString(b.enc.Pkt), "batch": b.batch,
+			"previous_encoder": a.enc.Enc, "previous_packet_hex": hex.EncodeToString(a.enc.Pkt), "previous_batch": a.batch,
+			"context": fmt.Sprintf("second packet through the same batch object; the previous packet was the %s encoding of %+v", a.enc.Enc, a.batch)})
 	}
 }
 
@@ -1191,7 +1297,7 @@ func TestVerifC13(t *testing.T) {
 		t.Skip("child mode")
 	}
 	rep := mc.NewReport("C13")
-	rep.Rule = "A: every 1-metric batch over the full field alphabet (3 names x 3 tag sets x counter/ts {absent,0,value} x values/uniques/histogram {absent,empty,1,2 elements}) and every ordered pair over the reduced alphabet, each in 7 encodings (TL, JSON, MessagePack compact and wide, Protobuf via generated pb, hand-rolled packed, hand-rolled unpacked), each parsed on dirty and on fresh buffers; B: every byte string up to length L over all 256 bytes and up to length M over 40 format-relevant bytes, plus every truncation and every single-byte substitution (11 representative bytes; MessagePack-wide: truncations only) of valid encodings; C: 32-bit-length header injection into MessagePack encodings in a memory-limited child process. Non-trivial = batch with at least one optional field or tag (presence logic exercised) / non-empty arbitrary string / mutated packet that differs from the valid one"
+	rep.Rule = "A: every 1-metric batch over the full field alphabet (3 names x 3 tag sets x counter/ts {absent,0,value} x values/uniques/histogram {absent,empty,1,2 elements}) and every ordered pair over the reduced alphabet, each in 7 encodings (TL, JSON, MessagePack compact and wide, Protobuf via generated pb, hand-rolled packed, hand-rolled unpacked), each parsed on dirty and on fresh buffers; A2: every ordered pair of 91 packets (13 batches with zero-valued counter/ts/value/unique/centroid components, empty strings and differing element counts x 7 encodings) parsed one after the other through one reused batch object as in the receive loops, the second must decode to its own reference; B: every byte string up to length L over all 256 bytes and up to length M over 40 format-relevant bytes, plus every truncation and every single-byte substitution (11 representative bytes; MessagePack-wide: truncations only) of valid encodings; C: 32-bit-length header injection into MessagePack encodings in a memory-limited child process. Non-trivial = batch with at least one optional field or tag (presence logic exercised) / non-empty arbitrary string / mutated packet that differs from the valid one"
 	quick := !mc.Thorough()
 	maxAll := mc.Pick(2, 3)
 	maxReduced := mc.Pick(3, 4)
@@ -1245,6 +1351,16 @@ func TestVerifC13(t *testing.T) {
 		}})
 	}
 	rep.Sample(map[string]any{"batch": []c13Metric{c13Full.metric(nFull - 1)}, "msgpack_hex": hex.EncodeToString(c13Encodings([]c13Metric{c13Full.metric(nFull - 1)})[2].Pkt)})
+
+	// ---- Part A2: every ordered pair of packets through one reused batch object
+	pairPk := c13PairPackets()
+	rep.Bounds["pair_family_packets"] = len(pairPk)
+	rep.Bounds["pair_family_ordered_pairs"] = len(pairPk) * len(pairPk)
+	for first := range pairPk {
+		first := first
+		units = append(units, c13Unit{run: func(u *c13UnitCtx) { c13CheckPairsFrom(u, pairPk, first) }})
+	}
+	nPairs := int64(len(pairPk) * len(pairPk))
 
 	// ---- Part B.1: all byte strings
 	var arbitrary int64
@@ -1443,7 +1559,8 @@ func TestVerifC13(t *testing.T) {
 	}
 
 	execs := pool.parses + childDone + childCrashed
-	rep.AddCounts(execs, execs, batches*7+arbitrary+pool.mutated+int64(len(jobs)), ntBatches*7+(arbitrary-1)+pool.mutated+int64(len(jobs)))
+	rep.AddCounts(execs, execs, batches*7+nPairs+arbitrary+pool.mutated+int64(len(jobs)), ntBatches*7+nPairs+(arbitrary-1)+pool.mutated+int64(len(jobs)))
+	rep.Parts["packet_pairs"] = map[string]any{"packets": len(pairPk), "ordered_pairs": nPairs}
 	rep.Parts["equivalence"] = map[string]any{"batches": batches, "encodings_per_batch": 7}
 	rep.Parts["arbitrary_bytes"] = map[string]any{"strings": arbitrary}
 	rep.Parts["mutations"] = map[string]any{"mutated_packets": pool.mutated}
